@@ -222,11 +222,11 @@ class Linearization(Operator):
             return self.new(self._val*other, self._jac.scale(other), met)
         if other.jac is None:
             check_object_identity(self.target, other.domain)
-            return self.new(self._val*other, other*self._jac)
+            return self.new(self._val*other, makeOp(other)(self._jac))
         check_object_identity(self.target, other.target)
         return self.new(
             self.val*other.val,
-            (other.val*self.jac)._myadd(self.val*other.jac, False))
+            makeOp(other.val)(self.jac)._myadd(makeOp(self.val)(other.jac), False))
 
     def __rmul__(self, other):
         return self.__mul__(other)
